@@ -30,6 +30,7 @@ def interleave(rng, a, b):
 def run2(pairs_list, threads=False):
     text = "".join("".join(f"@{k} {l}\n" for k, l in pairs) + "---\n" for pairs in pairs_list)
     env = dict(ENV)
+    env["API_RAW_CB"] = "1"      # also the order in which a context's listeners are called must be its own business
     if threads: env["API2_THREADS"] = "1"
     rc, out, err = run([HBIN, "api2"], stdin=text.encode(), timeout=3000, env=env)
     lines = out.split("\n")
